@@ -13,8 +13,8 @@ CLAIMS = {
   note="Trusted: Coq kernel+VM, hand model of dns.rs/tcp.rs connecting (tied by sampling), harness+driver, hook wrappers. All theorems closed under the global context (no axioms).",
   technique="Coq proof (refinement of index code to list spec) + differential correspondence", ref="DESIGN.md 4/C16, 3.3"),
  "C10": dict(
-  text="Coq theorems for ALL attempt lists, configurations and tie-breaks that the discrete-event model of EyeballSet satisfies the executable C10 monitor (Ok soundness incl. first-success-wins and deadline, completeness, first-error/all-tried, NoProgress iff empty, Timeout exactly at the deadline, no hang with a stagger delay configured while a never-started candidate would accept, never out of fuel), by an inductive invariant over the simulation. Model tied to the real EyeballSet (paused tokio clock, scripted attempts) by exact comparison of result, completion time and every first-poll/ready instant on a grid sample + random cases; the same monitor judges every implementation trace.",
-  note="Trusted: Coq kernel+VM; hand model of happy_eyeballs.rs (tied by sampling); tokio paused-clock semantics (oracle O4); tie-break among simultaneous timer wake-ups taken from the implementation's own completion order; harness+driver; hook re-export. No axioms.",
+  text="Coq theorems for ALL attempt lists, configurations and tie-breaks that the discrete-event model of EyeballSet satisfies the executable C10 monitor (Ok soundness incl. first-success-wins and deadline, completeness, first-error/all-tried, NoProgress iff empty, Timeout exactly at the deadline, no hang with a stagger delay configured while a never-started candidate would accept, never out of fuel), by an inductive invariant over the simulation; for the configuration TcpConnecting::connect builds (he/Tcp.v) the full-strength statement: if candidate i accepts with i * (T/n) + latency_i <= T the result is Ok (c10_tcp_succeeds, sharp), without a timeout it is Ok unless an attempt never completes (c10_tcp_succeeds_no_timeout), and the error mapping (c10_tcp_exhausted_iff, c10_tcp_timeout_only_configured). Model tied to the real EyeballSet (paused tokio clock, scripted attempts) by exact comparison of result, completion time and every first-poll/ready instant on a grid sample + random cases; the same monitor judges every implementation trace. The TCP glue is tied to the real TcpTransport::connect_to_addrs over 127.0.0.1 (parameters read from the library's own trace events, outcome class compared with the model).",
+  note="Trusted: Coq kernel+VM; hand model of happy_eyeballs.rs and of TcpConnecting::connect (tied by sampling); tokio paused-clock semantics (oracle O4); tie-break among simultaneous timer wake-ups taken from the implementation's own completion order; harness+driver; hook re-export. No axioms.",
   technique="Coq proof (inductive invariant of a discrete-event simulation, monitor = spec) + differential correspondence in virtual time", ref="DESIGN.md 4/C10, 3.2, appendix B"),
  "C11": dict(
   text="Coq theorems (all inputs, configs, tie-breaks): attempts start in order, each at most once, monotone in time; initial batch bounded by the configured concurrency and started at 0; completion no later than the deadline. PARTIAL: the two pacing clauses of the monitor (each later start triggered by, and as soon as, stagger timer / failure / empty set) are not yet proved for the model; they are evaluated on every implementation trace and the model is compared event-for-event with the implementation.",
